@@ -1,7 +1,9 @@
 use crate::engine::{Check, Ctx, Report};
 use serde_json::Value as J;
 
+pub mod c14;
 pub mod c17;
+pub mod c18;
 
 pub struct Property {
     pub id: &'static str,
@@ -11,6 +13,8 @@ pub struct Property {
 
 pub fn all() -> Vec<Property> {
     vec![
+        Property { id: "C14", run: c14::run, replay: c14::replay },
         Property { id: "C17", run: c17::run, replay: c17::replay },
+        Property { id: "C18", run: c18::run, replay: c18::replay },
     ]
 }
